@@ -526,3 +526,46 @@ def param_mutations(fn: ast.FunctionDef, param: str, callee_mutates=None) -> Lis
 
     block(fn.body, False)
     return out
+
+
+from .core import AnalysisError as _AE, dotted as _dotted, norm as _norm, walk_ordered as _wo
+
+
+def stateless_rule(ctx, model, rid: str, modules, floor: int, what: str, allowed=None) -> None:
+    """No function of the given modules reads or writes a module-level mutable container or carries a memoising
+    decorator: results are functions of the call's arguments (a cache keyed on less than all inputs, or one whose
+    entries are mutated in place, would hand one call the state of another)."""
+    n = 0
+    for mod in modules:
+        m = ctx.repo.modules[mod]
+        mutable = {}
+        for st in m.tree.body:
+            if isinstance(st, (ast.Assign, ast.AnnAssign)) and st.value is not None:
+                t = st.targets[0] if isinstance(st, ast.Assign) else st.target
+                if isinstance(t, ast.Name) and (isinstance(st.value, (ast.Dict, ast.List, ast.Set, ast.DictComp, ast.ListComp, ast.SetComp))
+                                                or (isinstance(st.value, ast.Call) and _dotted(st.value.func).split(".")[-1] in ("dict", "list", "set", "defaultdict", "OrderedDict", "WeakKeyDictionary", "WeakValueDictionary"))):
+                    mutable[t.id] = st
+        for name in list(mutable):
+            if allowed and (mod, name) in allowed:
+                ctx.note(f"{mod}.{name}: module-level container exempt from the stateless rule — {allowed[(mod, name)]}")
+                del mutable[name]
+        for q, fi in sorted(model.funcs.items()):
+            if fi.module != mod:
+                continue
+            n += 1
+            deco = [norm(d) for d in fi.node.decorator_list]
+            bad = [d for d in deco if any(k in d for k in ("cache", "lru_cache", "memoize"))]
+            glob = [x for x in walk_ordered(fi.node) if isinstance(x, ast.Global) and not (allowed and all((mod, nm) in allowed for nm in x.names))]
+            local = {a.arg for a in fi.node.args.args + fi.node.args.kwonlyargs} | {x.id for x in walk_ordered(fi.node) if isinstance(x, ast.Name) and isinstance(x.ctx, ast.Store)}
+            uses = [x for x in walk_ordered(fi.node) if isinstance(x, ast.Name) and x.id in mutable and x.id not in local]
+            if bad or glob or uses:
+                what_ = bad[0] if bad else (f"global {', '.join(glob[0].names)}" if glob else f"module-level container {uses[0].id}")
+                ctx.instance(rid, f"{fi.qual}: stateless")
+                ctx.violation(rid, f"{mod.split('.')[-1]}:{fi.qual}:module-state", mod, (uses[0] if uses else fi.node),
+                              f"{fi.qual} depends on {what_}: {what}")
+    ctx.instance(rid, f"{n} functions of {', '.join(m.split('.')[-1] for m in modules)} use no module-level mutable state or memoising decorator")
+    if n < floor:
+        raise _AE(f"stateless rule: only {n} functions inspected")
+    ctx.ok()
+
+
